@@ -221,12 +221,12 @@ func objectKeyKindFirst(c *Ctx, rule string) {
 	n := 0
 	// (SetMember has no test of its own: every caller reads the member through GetMember with the same
 	// key first — evalBinaryExpr's index arm, pluck — or passes a key it made itself)
-	for _, name := range []string{"(*Value).GetMember"} {
-		fn := p.LangFunc(name)
-		if fn == nil {
-			c.undecided(rule, name, "", "anchor not found")
-			continue
-		}
+	gmRoot := p.LangFunc("(*Value).GetMember")
+	if gmRoot == nil {
+		c.undecided(rule, "(*Value).GetMember", "", "anchor not found")
+		return
+	}
+	for _, fn := range p.privateCluster(gmRoot) {
 		ms := p.maySetOf(fn, "member.Tag", valueTagNames(p))
 		allInstrs(fn, func(in ssa.Instruction) {
 			var m ssa.Value
